@@ -43,6 +43,19 @@ CLAIMED["C17"] = (
     "DESIGN.md section 3, C17",
 )
 
+CLAIMED["C10"] = (
+    "package-level state census with alias tracking and per-parameter mutation summaries over go/ssa + VTA call graph (E-glob)",
+    "Every package-level variable of the module and every access to it in reach of the library's entry points is enumerated (direct, by address, and through aliases followed into callees). Decided: variables written after initialisation are atomic-and-monotone or lock-protected; shared maps/slices/pointees are never mutated through any alias; no goroutines or unsafe sharing. This excludes the only way two concurrent calls could interfere inside the module's own code, which is what the property asks of the repository; exploring interleavings is a different technique and is not attempted.",
+    "Thread-safety of OPA's prepared query and of json-gold is their documented contract. Lock protection is judged per function (coarse). " + TRUST,
+    "DESIGN.md section 3, C10",
+)
+CLAIMED["C09"] = (
+    "type-directed classification of entry points + SSA argument/result identity (pass-through and composition) + state census in reach of validate-with-compiled (E-glob)",
+    "Equivalence by construction: the text route is literally compile() followed by validateCompiled() on unchanged arguments, and the public compile / validate-with-compiled entry points delegate to those same two functions, so both routes execute the same code; reusability: nothing in reach of validate-with-compiled writes package-level state and the compiled profile is only read. Right level: the property compares two call sequences of the same code, which is an identity of call structure, not of runtime values.",
+    "OPA's Eval is assumed not to mutate the prepared query and to return fresh values. " + TRUST,
+    "DESIGN.md section 3, C09",
+)
+
 # properties without a check yet (or declined), with the reason
 NOT_APPLICABLE = {
 }
